@@ -402,6 +402,15 @@ junk = st.one_of(
 
 def two_gateways(cls_name, version, stats=None):
     """Options of a gateway must keep taking effect when a second gateway of the same class exists."""
+    try:
+        return _two_gateways(cls_name, version, stats)
+    except Violation:
+        raise
+    except Exception as exc:  # pylint: disable=broad-except
+        raise Violation(f"constructor_raises.{type(exc).__name__}", {"kind": "pair", "cls": cls_name, "version": version}, f"{cls_name} pair with documented options raised {type(exc).__name__}: {exc}") from exc
+
+
+def _two_gateways(cls_name, version, stats=None):
     import mysensors.mysensors as api
 
     case = {"kind": "pair", "cls": cls_name, "version": version}
